@@ -188,6 +188,12 @@ def run(ctx) -> None:
     ctx.rule("C04.R3-new-wins", "override_object lets the higher layer win when it is not None")
     ctx.rule("C04.R4-user-variables", "user variables are injected as platform-stage variables of every platform and stage")
     ctx.rule("C04.R5-undefined-variable-is-error", "an unknown variable is swallowed only under ignore_errors or for 'replica' in primitive mode")
+    ctx.rule("C04.R10-layer-then-substitute", "flattening a platform (FlowIRConcrete.instance) must not substitute variable references inside "
+             "the global / stage layers: the documented order is 'layer everything, then substitute', so a reference in a low layer must "
+             "still be able to see a definition that a higher layer (stage, user file, component, override) supplies")
+    ctx.rule("C04.R9-flattened-description-keeps-the-order", "the configuration is loaded through FlowIRConcrete.instance()/replicate(), a second "
+             "implementation of the variable layering: for every way a name can be defined in the default/platform x global/stage "
+             "scopes it lets the same scope win as the live resolver get_component_variables (LAYER engine, shared with C07.R7)")
     ctx.rule("C04.R8-fixpoint-rescans", "interpolate rescans the whole string after every substitution: the scan position is advanced "
                                         "only past a reference that is left unresolved on purpose (ignore_errors, primitive mode, "
                                         "symbol-table routes), and only by one character")
@@ -471,3 +477,47 @@ def run(ctx) -> None:
         ok = path in schema
         ctx.ob("C04.R6-typed-options", c, ok, "converter path %s is a schema path" % ".".join(path) if ok else
                "converter for %s has no schema entry (dead or misspelt path)" % ".".join(path), trivial=True)
+
+    # ---------------- R9 -------------------------------------------------------------------------------
+    from checks.c07 import check_scope_precedence, instance_literal
+    inst9, lit9, consts9 = instance_literal(ctx, m)
+    check_scope_precedence(ctx, m, inst9, lit9, consts9, rule="C04.R9-flattened-description-keeps-the-order",
+                           consequence="a configuration obtained through instance()/replicate() (every non-primitive load) resolves the "
+                                       "variable from a lower layer than the documented order: the platform's global value beats its stage "
+                                       "value and the user-supplied one")
+
+    # ---------------- R10 ------------------------------------------------------------------------------
+    from checks.c07 import field_name
+    var_lit = next((v for k, v in zip(lit9.keys, lit9.values) if field_name(consts9, k) == "variables"), None)
+    ctx.require(isinstance(var_lit, ast.Dict) and len(var_lit.values) == 1 and isinstance(var_lit.values[0], ast.Dict),
+                "anchor missing: the 'variables' entry of the dictionary returned by instance()")
+    inner = var_lit.values[0]
+    slots = {field_name(consts9, k): v for k, v in zip(inner.keys, inner.values)}
+    ctx.require(isinstance(slots.get("global"), ast.Name) and isinstance(slots.get("stages"), ast.Name),
+                "anchor missing: variables.default.global / .stages of instance() are local dictionaries")
+    layer_of = {slots["global"].id: "global", slots["stages"].id: "stage"}
+    # locals stored as elements of a layer dictionary carry that layer too (stage_variables[i] = this_stage_vars)
+    for n in source.walk_own(inst9):
+        if isinstance(n, ast.Assign) and isinstance(n.value, ast.Name):
+            for t in n.targets:
+                if isinstance(t, ast.Subscript) and isinstance(t.value, ast.Name) and t.value.id in layer_of:
+                    layer_of.setdefault(n.value.id, layer_of[t.value.id])
+    SUBST = ("interpolate", "fill_in")
+    sites = []
+    for n in source.walk_own(inst9):
+        if not isinstance(n, ast.Assign) or not (isinstance(n.value, ast.Call) and last_attr(n.value) in SUBST):
+            continue
+        for t in n.targets:
+            if isinstance(t, ast.Subscript) and isinstance(t.value, ast.Name) and t.value.id in layer_of:
+                sites.append((n, layer_of[t.value.id], "an entry of the %s layer is replaced by its substituted value" % layer_of[t.value.id]))
+            elif isinstance(t, ast.Name) and t.id in layer_of:
+                sites.append((n, layer_of[t.id], "the %s layer is rebound to its substituted copy" % layer_of[t.id]))
+    for (n, lay, how) in sites:
+        ctx.ob("C04.R10-layer-then-substitute", n, False,
+               "FlowIRConcrete.instance substitutes references inside the %s variables against the lower layers only and stores the result in "
+               "the flattened description (%s): with variables.default.global {a: '%%(b)s', b: 'G'} and the component variable b: 'C', "
+               "arguments '-a %%(a)s' resolve to '-a C' on the description itself but to '-a G' after flattening - every non-primitive load"
+               % (lay, how), construct="instance(): %s" % short(n, 70))
+    if not sites:
+        ctx.ob("C04.R10-layer-then-substitute", inst9, True, "the flattened layers keep their references for the final substitution",
+               construct="instance(): no substitution stored into the global / stage layers")
